@@ -317,4 +317,67 @@ func init() {
 			}
 		}
 	}
+	// arbitrary octet strings and damaged valid encodings into every plain decoding entry point (C04)
+	drivers["randbytes"] = func(d *Drive) {
+		g := gen{d.rng}
+		kinds := []string{"SA", "KE", "IDi", "IDr", "CERT", "CERTREQ", "AUTH", "NONCE", "N", "D", "V", "TSi", "TSr", "CP", "EAP", "SK",
+			"eap_identity", "eap_notification", "eap_nak", "eap_expanded", "eap_aka"}
+		for i := 0; i < d.n; i++ {
+			d.newCase()
+			var b Oct
+			switch d.rng.Intn(4) {
+			case 0: // pure noise
+				b = g.octs(g.size(0, 65535))
+			default: // a valid encoding, damaged
+				m, err := buildMsg(g.message())
+				if err != nil {
+					continue
+				}
+				enc, err := m.Encode()
+				if err != nil || len(enc) == 0 {
+					continue
+				}
+				b = octOf(enc)
+				for k, n := 0, 1+d.rng.Intn(3); k < n; k++ {
+					switch d.rng.Intn(5) {
+					case 0:
+						b[d.rng.Intn(len(b))] = byte(g.u8())
+					case 1:
+						b[d.rng.Intn(len(b))] ^= 1 << uint(d.rng.Intn(8))
+					case 2:
+						b = b[:d.rng.Intn(len(b)+1)]
+					case 3:
+						b = append(b, g.octs(d.rng.Intn(9))...)
+					case 4:
+						if len(b) > 30 {
+							j := 28 + d.rng.Intn(len(b)-29)
+							v := g.u16()
+							b[j], b[j+1] = byte(v>>8), byte(v)
+						}
+					}
+					if len(b) == 0 {
+						break
+					}
+				}
+				if len(b) >= 28 && d.rng.Intn(3) > 0 { // keep the header length consistent most of the time
+					n := len(b)
+					b[24], b[25], b[26], b[27] = byte(n>>24), byte(n>>16), byte(n>>8), byte(n)
+				}
+			}
+			d.call("C04", "decode", J{"wire": b, "caps": true})
+			d.call("C04", "parse_header", J{"wire": b, "caps": true})
+			if len(b) > 28 {
+				d.call("C04", "decode_chain", J{"first": int(b[16]), "wire": b[28:], "caps": true})
+				body := b[28:]
+				if len(body) > 4 {
+					body = body[4:]
+				}
+				d.call("C04", "decode_body", J{"kind": kinds[d.rng.Intn(len(kinds))], "wire": body, "caps": true})
+				d.call("C04", "eap_decode", J{"wire": body, "caps": true})
+			} else {
+				d.call("C04", "decode_body", J{"kind": kinds[d.rng.Intn(len(kinds))], "wire": b, "caps": true})
+				d.call("C04", "eap_decode", J{"wire": b, "caps": true})
+			}
+		}
+	}
 }
